@@ -94,6 +94,14 @@ func (c DefCtx) Prev() (MREvent, bool) {
 	return c.Ev[c.Start+len(c.Labels)-2], true
 }
 
+// PrevN returns the row n positions before the row under test inside the match so far.
+func (c DefCtx) PrevN(n int) (MREvent, bool) {
+	if len(c.Labels) < n+1 {
+		return MREvent{}, false
+	}
+	return c.Ev[c.Start+len(c.Labels)-1-n], true
+}
+
 // FirstOf returns the first row classified as name in the match so far.
 func (c DefCtx) FirstOf(name string) (MREvent, bool) {
 	for i, l := range c.Labels {
